@@ -39,6 +39,19 @@ def main(tier):
             run.ob("constructors", "Arena::%s/%s builds an empty arena (no slots, empty free list)" % (name, prof), ok,
                    key="constructors|crate::arena::Arena<T>::%s is not a plain empty-arena constructor" % name, detail=rs, nontrivial=("ctor", name))
     prog = facts.load("dev", None)
+    # every writer of a link field (and of the free-list ends) is reachable only through the operations analysed above: a function that changed links
+    # outside them - a new public mutator, a side effect in an accessor - would escape the inductive argument
+    idx = rules.Index(prog)
+    GATES = {"crate::id::NodeId::" + e for e in ("detach", "checked_append", "checked_prepend", "checked_insert_after", "checked_insert_before", "append_value", "remove", "remove_subtree")} | \
+            {"crate::arena::Arena<T>::new_node", "crate::arena::Arena<T>::clear", rules.free_node_key(prog)}
+    LINKS = ("parent", "previous_sibling", "next_sibling", "first_child", "last_child")
+    wsites = [s_ for s_ in rules.field_sites(prog, "crate::node::Node") if s_["kind"] in ("write", "mutref") and s_["field"] in LINKS] + \
+             [s_ for s_ in rules.field_sites(prog, "crate::arena::Arena") if s_["kind"] in ("write", "mutref") and s_["field"] in ("first_free_slot", "last_free_slot")]
+    wfns = sorted({s_["fn"] for s_ in wsites if not prog.fns[s_["fn"]].get("impl_derived")})
+    stray = [w for w in wfns if not idx.gated(w, GATES)]
+    run.ob("writers", "link fields and free-list ends are written only below the analysed operations: %s" % wfns, not stray,
+           key="writers|links written outside the analysed operations in %s" % ",".join(stray), detail=[(w, idx.ungated_path(w, GATES)) for w in stray] or wfns, nontrivial="writers", sample=True)
+    run.floor("functions writing link fields", len(wfns), 4)
     run.extra["written_argument"] = ("J4 (the nodes naming p as parent are exactly the next-chain first(p)..last(p)) follows from J2 and J3 on a finite "
                                      "arena: by J2b/J2a every sibling chain has one parent; by J2d its head is first(p) and its tail last(p); two distinct "
                                      "chains with parent p would need two heads with prev=None, both equal to first(p) by J2d.")
